@@ -135,6 +135,18 @@ Theorem C03_abf_with_restraints_resumes :
 Proof. intros T O. exact (abf_sys_resumes O). Qed.
 Print Assumptions C03_abf_with_restraints_resumes.
 
+(* eABF: ABF on an extended-Lagrangian variable (C04 model fed by the extended coordinate and the spring force, inside
+   the extended-Lagrangian combinator, Langevin term included), every carrier: reported extended value, spring force on
+   the atoms, ABF outputs; final x / extended_x / extended_v and samples / gradients.  (The CZAR grids are not modelled.) *)
+Theorem C03_eabf_resumes :
+  forall (T : Type) (O : NumOps T),
+    resumes_like_uninterrupted (eabf_machine O)
+      (fun c => abf_ok (snd c))
+      (xl_out_eq (@abf_out_eq0 T)) (xl_out_eq (@abf_out_eq T))
+      (fun v v' => fst v = fst v' /\ snd v = snd v').
+Proof. intros T O. exact (eabf_resumes O). Qed.
+Print Assumptions C03_eabf_resumes.
+
 (* Metadynamics (C05 model of one replica: hills, both grids, hills near the edges, keepHills, well-tempered,
    with or without grids; state = grids + geometry + the explicit hills), over the reals, grids compared bin
    by bin.  PARTIAL with respect to the property text: the resumed run is indistinguishable from the run that
